@@ -199,6 +199,14 @@ impl Store {
         })
     }
 
+    /// Mark the store as poisoned. Used when a write that is part of a commit but happens outside
+    /// of [`Store::commit`] (the rollback log append) fails.
+    pub fn poison(&self) {
+        self.shared
+            .poisoned
+            .store(true, std::sync::atomic::Ordering::Relaxed);
+    }
+
     pub fn is_poisoned(&self) -> bool {
         self.shared
             .poisoned
